@@ -415,11 +415,25 @@ func (lf *LoopForm) tripValues(g *IG) []ssa.Value {
 	for _, init := range lf.Init {
 		cands = append(cands, init)
 	}
+	// (also the terms of a sum: the bound start+count contains the count)
+	var terms func(v ssa.Value, depth int)
+	terms = func(v ssa.Value, depth int) {
+		if b, ok := stripConv(v).(*ssa.BinOp); ok && depth < 3 && (b.Op == token.ADD || b.Op == token.SUB) {
+			cands = append(cands, b.X, b.Y)
+			terms(b.X, depth+1)
+			terms(b.Y, depth+1)
+		}
+	}
+	for _, v := range append([]ssa.Value(nil), cands...) {
+		terms(v, 0)
+	}
 	env := lf.z.env
 	lf.z.env = lf.save
 	var out []ssa.Value
+	seen := map[ssa.Value]bool{}
 	for _, v := range cands {
-		if lf.z.Of(v).equal(lf.Trips) {
+		if !seen[v] && lf.z.Of(v).equal(lf.Trips) {
+			seen[v] = true
 			out = append(out, v)
 		}
 	}
